@@ -25,7 +25,7 @@ def renderOhp : Scion.Ohp.Res → String
   | .fwd e p => s!"fwd {e} {hexOf (Scion.Ohp.encodePath p)}"
 
 def handleOhp : List String → Option String
-  | [loc, nbs, ing, src, dst, hb, al, dl, reg, res, key] => do
+  | [loc, nbs, ing, src, dst, hb, al, dl, pl, reg, res, key] => do
     let loc ← loc.toNat?
     let nbs ← parseNbs nbs
     let ing ← ing.toNat?
@@ -34,12 +34,13 @@ def handleOhp : List String → Option String
     let hb ← hb.toNat?
     let al ← al.toNat?
     let dl ← dl.toNat?
+    let pl ← pl.toNat?
     let reg ← unhex reg
     let res ← res.toNat?
     let key ← unhex key
     let cfg : Scion.Ohp.Cfg := { localIA := loc, nbs := nbs }
     let pkt : Scion.Ohp.Pkt := { ingress := ing, srcIA := src, dstIA := dst, hdrBytes := hb, addrLen := al,
-                                 dataLen := dl, region := reg, resolves := res == 1 }
+                                 dataLen := dl, payloadLen := pl, region := reg, resolves := res == 1 }
     some (renderOhp (Scion.Ohp.process cfg (cmacWith key) pkt))
   | _ => none
 
@@ -155,7 +156,10 @@ def handle : List String → String
 end Driver.Router2
 
 def Driver.Router2.handleS (st : Scion.LinkDown.State) : List String → Scion.LinkDown.State × String
-  | "ld" :: rest => match Driver.Router2.handleLd st rest with
+  | "ld" :: rest =>
+    -- a trailing word starting with '#' identifies the position in the history; it carries no information
+    let rest := rest.filter (fun w => !w.startsWith "#")
+    match Driver.Router2.handleLd st rest with
     | some r => r
     | none => (st, "bad-op")
   | ws => (st, Driver.Router2.handle ws)
